@@ -8,7 +8,7 @@ PROCESS per seed (PYTHONHASHSEED=seed, listing shuffle=seed, seed of the first r
 output directory each; then once more into the first run's output directory (REUSED) with the second seed.
 Oracle: all output trees are byte-identical (symlinks compared by target).
 stdout: list of {"equal": bool, "rc": [...], "diff": {...first differing file, byte offset...}, "observed": {...}}."""
-import hashlib, json, os, random, shutil, subprocess, sys, tempfile
+import hashlib, json, os, random, shutil, subprocess, sys, tempfile, time
 from concurrent.futures import ThreadPoolExecutor
 from pathlib import Path
 
@@ -78,8 +78,9 @@ def run_once(base: Path, case: dict, out: Path, seed: int, shuffle: int) -> tupl
     env['PYTHONHASHSEED'] = str(seed)
     env.pop('SOURCE_DATE_EPOCH', None)
     args = [a.replace('{SRC}', str(base)) for a in case['args']]
-    if case.get('time', 'epoch') == 'epoch':
-        env['SOURCE_DATE_EPOCH'] = EPOCH
+    t = case.get('time', 'epoch')
+    if t.startswith('epoch'):
+        env['SOURCE_DATE_EPOCH'] = t.split(':', 1)[1] if ':' in t else EPOCH
     else:
         args.append('--buildtime=' + BUILDTIME)
     if case.get('templates'):
@@ -96,6 +97,12 @@ def run_once(base: Path, case: dict, out: Path, seed: int, shuffle: int) -> tupl
 def observe(out: Path, t: dict) -> dict:
     obs = {'symlinks': {k: v[1] for k, v in t.items() if v[0] == 'l'}, 'files': len(t),
            'has_index_page': None, 'project': None}
+    import re
+    page = out / 'moduleIndex.html'
+    obs['buildtime'] = None
+    if page.exists():
+        m = re.search(r' at (\d{4}-\d\d-\d\d \d\d:\d\d:\d\d)', page.read_text(encoding='utf-8', errors='replace'))
+        obs['buildtime'] = m.group(1) if m else None
     inv = out / 'objects.inv'
     if inv.exists():
         for line in inv.read_bytes().split(b'\n')[:4]:
@@ -112,6 +119,8 @@ def run_case(arg) -> dict:
         outs, trees, rcs, logs = [], [], [], []
         for i, s in enumerate(seeds):
             materialise(src, case, 0 if i == 0 else s + 1)
+            if i == 1 and case.get('gap'):
+                time.sleep(case['gap'])          # so that a build time taken from the clock cannot coincide
             out = d / ('out%d' % i)
             rc, log = run_once(src, case, out, s, -1 if i == 0 else s)
             outs.append(out); rcs.append(rc); logs.append(log[-1500:])
